@@ -159,16 +159,14 @@ theorem cfgOf_set (f : Slots) (s : Slot) (v : Option Val) (t : Slot) :
   simp only [cfgOf, Slots.set]
   split <;> rfl
 
-theorem ownSpecified_of_ne_names (own : Param) {s : Slot} (h : s ≠ .names) :
-    ownSpecified own s = own.slots s := by
-  cases s <;> first | rfl | exact absurd rfl h
+theorem ownSpecified_of_ne_names (own : Param) {s : Slot} (_h : s ≠ .names) :
+    ownSpecified own s = own.slots s := rfl
 
 /-- the static part of the merge is the declarative "own, else nearest, else the type's default" -/
-theorem staticFill_found_cfg (own : Param) (supers : List (Option Param)) {s : Slot}
-    (hs : hasSlot own.ptype s = true) (hn : s ≠ .names) :
+theorem staticFill_found_cfg' (own : Param) (supers : List (Option Param)) {s : Slot}
+    (hs : hasSlot own.ptype s = true) :
     cfgOf (staticFill own.ptype (mergeSearch own supers).1) s = specStatic own supers s := by
-  simp only [cfgOf, staticFill, mergeSearch_fst, hs, if_true, firstSome_offers, specStatic, chosen,
-    ownSpecified_of_ne_names own hn]
+  simp only [cfgOf, staticFill, mergeSearch_fst, hs, if_true, firstSome_offers, specStatic, chosen, ownSpecified]
   cases h1 : own.slots s with
   | some v => simp
   | none =>
@@ -180,11 +178,12 @@ theorem staticFill_found_cfg (own : Param) (supers : List (Option Param)) {s : S
       cases h3 : typeDefault own.ptype s with
       | static v => simp
       | computed => simp
-      | missing =>
-        exfalso
-        revert h3
-        cases s <;> cases own.ptype <;> simp [typeDefault] <;> exact absurd rfl hn
+      | missing => simp
 
+theorem staticFill_found_cfg (own : Param) (supers : List (Option Param)) {s : Slot}
+    (hs : hasSlot own.ptype s = true) (_hn : s ≠ .names) :
+    cfgOf (staticFill own.ptype (mergeSearch own supers).1) s = specStatic own supers s :=
+  staticFill_found_cfg' own supers hs
 
 /-! ### the steps after the search: `_slot_defaults` callables, `_update_state` -/
 
@@ -251,10 +250,26 @@ def selBase (c : Cfg) : PyV := (c .objects).getD (.list [])
 def selCos (c : Cfg) : Option PyV :=
   (c .checkOnSet).or ((selBase c).len.map fun n => PyV.atom (.bool (n != 0)))
 
+theorem selectorNamesDefault_cfg (st op name : Nat) (f : Slots) (s : Slot) :
+    cfgOf (selectorNamesDefault st op name f) s =
+      if s = .names then some ((cfgOf f .names).getD (.dict [])) else cfgOf f s := by
+  unfold selectorNamesDefault
+  cases hn : f .names with
+  | some v =>
+    by_cases hs : s = .names
+    · subst hs; simp [cfgOf, hn]
+    · simp [hs]
+  | none =>
+    rw [cfgOf_set]
+    by_cases hs : s = .names
+    · subst hs; simp [cfgOf, hn]
+    · simp [hs]
+
 theorem runCallables_selector_cfg {st op name : Nat} {f g : Slots}
     (h : runCallables .selector st op name f = .ok g) (s : Slot) :
     cfgOf g s = if s = .objects then some (selBase (cfgOf f))
-                else if s = .checkOnSet then selCos (cfgOf f) else cfgOf f s := by
+                else if s = .checkOnSet then selCos (cfgOf f)
+                else if s = .names then some ((cfgOf f .names).getD (.dict [])) else cfgOf f s := by
   simp only [runCallables] at h
   -- the objects step
   generalize hf1 : selectorObjectsDefault st op name f = f1 at h
@@ -278,6 +293,13 @@ theorem runCallables_selector_cfg {st op name : Nat} {f g : Slots}
   | some v =>
     simp only [hc] at h
     cases h
+    rw [selectorNamesDefault_cfg]
+    by_cases hsn : s = .names
+    · subst hsn
+      have := h1 .names
+      simp only [reduceCtorEq, if_false] at this
+      simp [this]
+    simp only [hsn, if_false]
     rw [h1 s]
     by_cases hs : s = .objects
     · simp [hs]
@@ -295,6 +317,14 @@ theorem runCallables_selector_cfg {st op name : Nat} {f g : Slots}
     | some n =>
       simp only [hn] at h
       cases h
+      rw [selectorNamesDefault_cfg]
+      by_cases hsn : s = .names
+      · subst hsn
+        rw [cfgOf_set]
+        have := h1 .names
+        simp only [reduceCtorEq, if_false] at this
+        simp [this]
+      simp only [hsn, if_false]
       rw [cfgOf_set, h1 s]
       by_cases hs2 : s = .checkOnSet
       · subst hs2
@@ -480,7 +510,8 @@ theorem prepare_selector_cfg {op name : Nat} {found f4 : Slots} {c0 : Cfg}
       cfgOf f4 s =
         if s = .objects then
           (if cos = .atom (.bool false) ∧ d.isNone = false then some (adopt (selBase c0) d) else some (selBase c0))
-        else if s = .checkOnSet then some cos else c0 s := by
+        else if s = .checkOnSet then some cos
+        else if s = .names then some ((c0 .names).getD (.dict [])) else c0 s := by
   subst hc0
   simp only [prepare] at h
   split at h
@@ -656,7 +687,7 @@ theorem expected_selector_cos {own : Param} (supers : List (Option Param)) (hT :
   rw [hT]
 
 theorem expected_selector_other {own : Param} (supers : List (Option Param)) (hT : own.ptype = .selector)
-    {s : Slot} (h1 : s ≠ .objects) (h2 : s ≠ .checkOnSet) :
+    {s : Slot} (h1 : s ≠ .objects) (h2 : s ≠ .checkOnSet) (h3 : s ≠ .names) :
     expected own supers s = specStatic own supers s := by
   unfold expected
   rw [hT]
@@ -712,8 +743,8 @@ theorem held_eq_expected_selector (rx : String → String → Bool) (op name : N
     rw [hg s hso, hall s]
     by_cases hsc : s = .checkOnSet
     · subst hsc; simp [expected_selector_cos supers hT, hcs]
-    · simp only [hso, hsc, if_false]
-      rw [expected_selector_other supers hT hso hsc]
+    · simp only [hso, hsc, hn, if_false]
+      rw [expected_selector_other supers hT hso hsc hn]
       exact hst s hs hn
   cases b with
   | true =>
@@ -1088,7 +1119,8 @@ theorem not_revalidated_sat (rx : String → String → Bool) (op name : Nat) (o
             | some v => rfl
           · by_cases hsc : s = .checkOnSet
             · subst hsc; simp [hcos]
-            · simp only [hso, hsc, if_false]; exact e1
+            · have hsn : s ≠ .names := by intro e; subst e; rw [h2] at hs; cases hs
+              simp only [hso, hsc, hsn, if_false]; exact e1
         · have hct' : cos.truthy = false := by simpa using hct
           have ⟨ea, ea2⟩ := hst .allowNone rfl rfl
           have h4c : cfgOf f4 .checkOnSet = some cos := by rw [hall]; simp
@@ -1133,13 +1165,6 @@ theorem staticFill_some_of_static {T : PType} {s : Slot} {v : Val} (hs : hasSlot
   simp only [staticFill, hs, hd, if_true]
   cases f s <;> rfl
 
-theorem missingKey_selector {found : Slots} (h : missingKey .selector found = false) :
-    (found .names).isSome = true := by
-  simp only [missingKey, slotsOf, slotOrder, List.filter, hasSlot, List.any, typeDefault] at h
-  cases hn : found .names with
-  | some v => rfl
-  | none => simp [hn] at h
-
 theorem prepare_filled {T : PType} {op name : Nat} {found f4 : Slots} (h : prepare T op name found = .ok f4)
     {s : Slot} (hs : hasSlot T s = true) : (f4 s).isSome = true := by
   rw [← isSome_cfgOf]
@@ -1179,11 +1204,6 @@ theorem prepare_filled {T : PType} {op name : Nat} {found f4 : Slots} (h : prepa
       exact staticFill_some_of_static hs hv _
   · by_cases h2 : T = .selector
     · subst h2
-      have hmk : missingKey .selector found = false := by
-        simp only [prepare] at h
-        split at h
-        · cases h
-        · rename_i hm; simpa using hm
       obtain ⟨cos, dd, _, _, hall⟩ := prepare_selector_cfg rfl h
       rw [hall s]
       by_cases hso : s = .objects
@@ -1191,15 +1211,11 @@ theorem prepare_filled {T : PType} {op name : Nat} {found f4 : Slots} (h : prepa
       · by_cases hsc : s = .checkOnSet
         · simp [hsc]
         · simp only [hso, hsc, if_false]
-          rw [isSome_cfgOf]
           by_cases hsn : s = .names
-          · subst hsn
-            simp only [staticFill]
-            have := missingKey_selector hmk
-            cases hn : found .names with
-            | some v => rfl
-            | none => simp [hn] at this
-          · have : ∃ v, typeDefault .selector s = .static v := by
+          · simp [hsn]
+          · simp only [hsn, if_false]
+            rw [isSome_cfgOf]
+            have : ∃ v, typeDefault .selector s = .static v := by
               cases s <;> simp_all [hasSlot, typeDefault]
             obtain ⟨v, hv⟩ := this
             exact staticFill_some_of_static hs hv _
@@ -1898,30 +1914,31 @@ theorem held_static_slot (rx : String → String → Bool) (op name : Nat) (own 
       show cfgOf (inherit rx op name own supers).param.slots s = _
       rw [hslots]
       have : cfgOf f4 s = specStatic own supers s := by
-        rw [hall s]; simp only [hso, hsc, if_false]
+        rw [hall s]; simp only [hso, hsc, hn, if_false]
         rw [← h2]; exact staticFill_found_cfg own supers hs hn
       split
       · rw [revalidate_cfg_other rx _ _ _ hso]; exact this
       · exact this
     · rw [held_eq_expected_plain rx op name own supers hr h1 h2 hs, expected_plain supers s h1 h2]
 
-/-- `names` always comes from the declaration itself (Selector.__init__ always sets it) -/
-theorem held_names_own (rx : String → String → Bool) (op name : Nat) (own : Param)
+/-- `names` of a Selector is resolved like every other slot (own, else nearest holder), with `{}`
+as the computed default -/
+theorem held_names_eq_expected (rx : String → String → Bool) (op name : Nat) (own : Param)
     (supers : List (Option Param))
     (hr : (inherit rx op name own supers).outcome.reached = true)
-    (hT : own.ptype = .selector) (hown : (own.slots .names).isSome = true) :
-    (inherit rx op name own supers).param.cfg .names = own.cfg .names := by
+    (hT : own.ptype = .selector) :
+    (inherit rx op name own supers).param.cfg .names = expected own supers .names := by
   obtain ⟨f4, d, hp, hd, _, hslots, _⟩ := inherit_reached hr
   rw [hT] at hp
   obtain ⟨cos, dd, _, _, hall⟩ := prepare_selector_cfg rfl hp
   show cfgOf (inherit rx op name own supers).param.slots .names = _
   rw [hslots]
-  have : cfgOf f4 .names = own.cfg .names := by
-    rw [hall]; simp only [reduceCtorEq, if_false]
-    cases hn : own.slots .names with
-    | none => simp [hn] at hown
-    | some v =>
-      simp [cfgOf, staticFill, mergeSearch_fst, hT, hasSlot, firstSome_offers, hn, Param.cfg]
+  have : cfgOf f4 .names = expected own supers .names := by
+    rw [hall]; simp only [reduceCtorEq, if_false, if_true]
+    unfold expected
+    rw [hT]
+    simp only []
+    rw [← hT, staticFill_found_cfg' own supers (by rw [hT]; rfl)]
   split
   · rw [revalidate_cfg_other rx _ _ _ (by decide)]; exact this
   · exact this
@@ -2050,18 +2067,6 @@ theorem held_eq_expected_all (rx : String → String → Bool) (op name : Nat) (
     · exact held_eq_expected_plain rx op name own supers hr h1 h2 hs
 
 
-theorem specStatic_names_some (own : Param) (supers : List (Option Param)) :
-    (specStatic own supers .names).isSome = true := by
-  unfold specStatic
-  cases chosen own supers .names with
-  | some v => rfl
-  | none => cases own.ptype <;> simp [typeDefault]
-
-theorem expected_names (own : Param) (supers : List (Option Param)) :
-    expected own supers .names = specStatic own supers .names := by
-  unfold expected
-  cases own.ptype <;> rfl
-
 /-- a merge that reached the re-validation decision has every slot computable -/
 theorem computable_of_reached (rx : String → String → Bool) (op name : Nat) (own : Param)
     (supers : List (Option Param))
@@ -2073,7 +2078,11 @@ theorem computable_of_reached (rx : String → String → Bool) (op name : Nat) 
   intro s hs
   have hs' := mem_slotsOf.1 hs
   by_cases hn : s = .names
-  · subst hn; rw [expected_names]; exact specStatic_names_some own supers
+  · subst hn
+    have hT := hasSlot_names hs'
+    unfold expected
+    rw [hT]
+    rfl
   · rw [← held_eq_expected_all rx op name own supers hr hcos hs' hn]
     obtain ⟨f4, d, hp, hd, _, hslots, _⟩ := inherit_reached hr
     show (cfgOf (inherit rx op name own supers).param.slots s).isSome = true
@@ -2206,14 +2215,8 @@ theorem callableError_not_computable (rx : String → String → Bool) (op name 
 /-! ### constructed Parameters: shape; KeyError is unreachable; where a class body stops -/
 
 
-theorem missingKey_false_of_plain {T : PType} (hT : T ≠ .selector) (f : Slots) : missingKey T f = false := by
-  cases T <;> simp_all [missingKey, slotsOf, slotOrder, hasSlot, typeDefault]
-
-theorem missingKey_selector_false {f : Slots} (h : (f .names).isSome = true) : missingKey .selector f = false := by
-  simp only [missingKey, slotsOf, slotOrder, List.filter, hasSlot, List.any, typeDefault]
-  cases hn : f .names with
-  | none => simp [hn] at h
-  | some v => simp
+theorem missingKey_false (T : PType) (f : Slots) : missingKey T f = false := by
+  cases T <;> simp [missingKey, slotsOf, slotOrder, hasSlot, typeDefault]
 
 theorem prepare_keyError {T : PType} {op name : Nat} {found f : Slots}
     (h : prepare T op name found = .error (.keyError, f)) : missingKey T found = true := by
@@ -2224,21 +2227,11 @@ theorem prepare_keyError {T : PType} {op name : Nat} {found f : Slots}
     · cases h
     · split at h <;> cases h
 
-/-- a Parameter whose `names` slot is set (every constructed Selector) never hits the KeyError branch -/
-theorem inherit_not_keyError (rx : String → String → Bool) (op name : Nat) (own : Param) (supers : List (Option Param))
-    (hn : own.ptype = .selector → (own.slots .names).isSome = true) :
+/-- every modelled slot has a `_slot_defaults` entry: the KeyError branch is never taken -/
+theorem inherit_not_keyError (rx : String → String → Bool) (op name : Nat) (own : Param) (supers : List (Option Param)) :
     (inherit rx op name own supers).outcome ≠ .keyError := by
   intro h
-  have hmk : missingKey own.ptype (mergeSearch own supers).1 = false := by
-    by_cases hT : own.ptype = .selector
-    · rw [hT]
-      apply missingKey_selector_false
-      rw [mergeSearch_fst, firstSome_offers]
-      have := hn hT
-      cases hs : own.slots .names with
-      | none => simp [hs] at this
-      | some v => simp [hT, hasSlot]
-    · exact missingKey_false_of_plain hT _
+  have hmk := missingKey_false own.ptype (mergeSearch own supers).1
   unfold inherit at h
   simp only [] at h
   cases hp : prepare own.ptype op name (mergeSearch own supers).1 with
@@ -2303,31 +2296,30 @@ constructor does not derive holds exactly the keyword argument (`none` = `Undefi
 theorem construct_shape (rx : String → String → Bool) (op name : Nat) (d : Decl) (own : Param)
     (h : construct rx op name d = .ok own) :
     own.ptype = d.ptype ∧
-    (∀ s, hasSlot d.ptype s = true → derivedSlot d.ptype s = false → own.slots s = d.args s) ∧
-    (d.ptype = .selector → (own.slots .names).isSome = true) := by
+    (∀ s, hasSlot d.ptype s = true → derivedSlot d.ptype s = false → own.slots s = d.args s) := by
   unfold construct at h
   split at h
   · rename_i hpt
     cases h
-    refine ⟨hpt.symm, ?_, fun h => by rw [hpt] at h; cases h⟩
+    refine ⟨hpt.symm, ?_⟩
     intro s hs hd
     rw [hpt] at hs hd
     cases s <;> simp_all [baseInit, hasSlot, derivedSlot]
   · rename_i hpt
     obtain ⟨rfl, _⟩ := checked_ok h
-    refine ⟨rfl, ?_, fun h => by rw [hpt] at h; cases h⟩
+    refine ⟨rfl, ?_⟩
     intro s hs hd
     rw [hpt] at hs hd
     cases s <;> simp_all [baseInit, hasSlot, derivedSlot, Slots.set]
   · rename_i hpt
     obtain ⟨rfl, _⟩ := checked_ok h
-    refine ⟨rfl, ?_, fun h => by rw [hpt] at h; cases h⟩
+    refine ⟨rfl, ?_⟩
     intro s hs hd
     rw [hpt] at hs hd
     cases s <;> simp_all [baseInit, hasSlot, derivedSlot, Slots.set]
   · rename_i hpt
     obtain ⟨rfl, _⟩ := checked_ok h
-    refine ⟨hpt.symm, ?_, fun h => by rw [hpt] at h; cases h⟩
+    refine ⟨hpt.symm, ?_⟩
     intro s hs hd
     rw [hpt] at hs hd
     cases s <;> simp_all [baseInit, hasSlot, derivedSlot, Slots.set]
@@ -2341,27 +2333,21 @@ theorem construct_shape (rx : String → String → Bool) (op name : Nat) (d : D
       | ok len =>
         simp only [hl] at h
         obtain ⟨rfl, _⟩ := checked_ok h
-        refine ⟨hpt.symm, ?_, fun h => by rw [hpt] at h; cases h⟩
+        refine ⟨hpt.symm, ?_⟩
         intro s hs hd
         rw [hpt] at hs hd
         cases s <;> simp_all [baseInit, hasSlot, derivedSlot, Slots.set]
   · rename_i hpt
     obtain ⟨rfl, _⟩ := checked_ok h
-    refine ⟨hpt.symm, ?_, fun h => by rw [hpt] at h; cases h⟩
+    refine ⟨hpt.symm, ?_⟩
     intro s hs hd
     rw [hpt] at hs hd
     cases s <;> simp_all [baseInit, hasSlot, derivedSlot, Slots.set]
   · rename_i hpt
     have hraw : ∀ ad, (∀ s, hasSlot .selector s = true → derivedSlot .selector s = false →
-        (selectorRaw op name d.args d.instantiate ad).slots s = d.args s) ∧
-        ((selectorRaw op name d.args d.instantiate ad).slots .names).isSome = true := by
-      intro ad
-      constructor
-      · intro s hs hd
-        cases s <;> simp_all [selectorRaw, baseInit, hasSlot, derivedSlot, Slots.set]
-      · simp only [selectorRaw, Slots.set]
-        simp only [reduceCtorEq, if_false, if_true]
-        split <;> rfl
+        (selectorRaw op name d.args d.instantiate ad).slots s = d.args s) := by
+      intro ad s hs hd
+      cases s <;> simp_all [selectorRaw, baseInit, hasSlot, derivedSlot, Slots.set]
     unfold constructSelector at h
     cases had : selectorAutodefault d.args with
     | error e => simp [had] at h
@@ -2389,18 +2375,15 @@ theorem construct_shape (rx : String → String → Bool) (op name : Nat) (d : D
                 | ok s' =>
                   simp only [he] at h
                   cases h
-                  refine ⟨hpt.symm, ?_, fun _ => ?_⟩
-                  · intro s hs hd
-                    rw [hpt] at hs hd
-                    have hso : s ≠ .objects := by intro e; subst e; simp [derivedSlot] at hd
-                    show s' s = _
-                    rw [ensureInObjects_other he hso]
-                    exact (hraw ad).1 s hs hd
-                  · show (s' .names).isSome = true
-                    rw [ensureInObjects_other he (by decide)]
-                    exact (hraw ad).2
+                  refine ⟨hpt.symm, ?_⟩
+                  intro s hs hd
+                  rw [hpt] at hs hd
+                  have hso : s ≠ .objects := by intro e; subst e; simp [derivedSlot] at hd
+                  show s' s = _
+                  rw [ensureInObjects_other he hso]
+                  exact hraw ad s hs hd
               · cases h
-                exact ⟨hpt.symm, fun s hs hd => by rw [hpt] at hs hd; exact (hraw ad).1 s hs hd, fun _ => (hraw ad).2⟩
+                exact ⟨hpt.symm, fun s hs hd => by rw [hpt] at hs hd; exact hraw ad s hs hd⟩
 
 
 
